@@ -32,6 +32,8 @@ def universe():
     add("a0", []); add("a1", [{"$i64": "1"}]); add("a1", [{"$u64": "1"}]); add("a1a", [1, "a"]); add("a2", [2]); add("aa1", [[1]])
     add("am", [{"a": 1}]); add("am2", [{"a": 2}]); add("an", [None]); add("a1n", [1, None])
     # arrays that extend one another past an element on which the partial order gives up (a map): prefix, not equal
+    # arrays of different lengths whose first elements are of kinds without an order between them
+    add("an5", [None, 5]); add("a300", [3, 0, 0]); add("a4", [4]); add("as1", ["s", 1]); add("a01", [0, 1])
     add("am_2", [{"a": 1}, 2]); add("am_m", [{"a": 1}, {"a": 1}]); add("aam", [[{"a": 1}]]); add("aam_1", [[{"a": 1}], 1])
     add("m0", {}); add("ma1", {"a": {"$i64": "1"}}); add("ma1", {"a": {"$u128": "1"}}); add("ma2", {"a": 2}); add("mb1", {"b": 1})
     add("mi", {"$map": [[{"$i64": "1"}, "x"]]}); add("mi", {"$map": [[{"$u128": "1"}, "x"]]}); add("mis", {"$map": [["1", "x"]]})
@@ -43,12 +45,12 @@ KEYENC = {"i0": {"i64": {"$i64": "0"}, "u64": {"$u64": "0"}, "i128": {"$i128": "
           "i1": {"i64": {"$i64": "1"}, "u64": {"$u64": "1"}, "i128": {"$i128": "1"}, "u128": {"$u128": "1"}},
           "im1": {"i64": {"$i64": "-1"}, "i128": {"$i128": "-1"}},
           "i2p64": {"u128": {"$u128": str(2**64)}, "i128": {"$i128": str(2**64)}},
-          "sa": {"owned": "a", "borrowed": {"$str": "a"}}, "s1": {"owned": "1"}, "bt": {"bool": True}}
+          "sa": {"owned": "a", "borrowed": {"$str": "a"}}, "s1": {"owned": "1"}, "bt": {"bool": True}, "umax": {"u128": {"$u128": str(2**128 - 1)}}}
 VALENC = {"i0": {"i64": {"$i64": "0"}, "u64": {"$u64": "0"}, "i128": {"$i128": "0"}, "u128": {"$u128": "0"}},
           "i1": {"i64": {"$i64": "1"}, "u64": {"$u64": "1"}, "i128": {"$i128": "1"}, "u128": {"$u128": "1"}},
           "im1": {"i64": {"$i64": "-1"}, "i128": {"$i128": "-1"}},
           "i2p64": {"u128": {"$u128": str(2**64)}, "i128": {"$i128": str(2**64)}},
-          "sa": {"owned": "a", "borrowed": "a"}, "s1": {"owned": "1"}, "bt": {"bool": True}}
+          "sa": {"owned": "a", "borrowed": "a"}, "s1": {"owned": "1"}, "bt": {"bool": True}, "umax": {"u128": {"$u128": str(2**128 - 1)}}}
 
 
 def run(tier):
